@@ -148,8 +148,13 @@ def execute(task, package_dir):
             env.update(LD_PRELOAD=libasan, ASAN_OPTIONS="detect_leaks=0:exitcode=97:abort_on_error=0",
                        UBSAN_OPTIONS="halt_on_error=1:exitcode=98:print_stacktrace=1")
         cli = os.path.join(os.path.dirname(os.path.dirname(os.path.abspath(__file__))), "cli.py")
-        proc = subprocess.run([sys.executable, "-B", cli, "_schedsim-child", spec_path], env=env,
-                              stdout=subprocess.PIPE, stderr=subprocess.PIPE, timeout=1200)
+        try:
+            proc = subprocess.run([sys.executable, "-B", cli, "_schedsim-child", spec_path], env=env,
+                                  stdout=subprocess.PIPE, stderr=subprocess.PIPE, timeout=480)
+        except subprocess.TimeoutExpired:
+            summary["status"] = "harness_error"
+            summary["error"] = "schedsim child did not finish within 480 s (killed)"
+            return summary
         err = proc.stderr.decode(errors="replace")
         sanitizer = "AddressSanitizer" in err or "runtime error:" in err
         if proc.returncode != 0 or sanitizer:
